@@ -50,7 +50,7 @@ fn gen_mc(rng: &mut Rng) -> MC {
             id: if hide { format!("hid{i}") } else if rng.chance(1, 4) { format!(".id{i}") } else { format!("id{i}") },
             short, long,
             vnames: if takes && rng.chance(1, 2) { if hide { vec![format!("HIDV{i}")] } else if rng.chance(1, 3) { vec![format!("{}{i}", rng.pick(&MILD[..])), format!("B{i}")] } else { vec![format!("{}{i}", rng.pick(&MILD[..]))] } } else { vec![] },
-            kind, required, hide, heading: if rng.chance(1, 4) { Some(if hide { format!("HidHeading{}", rng.below(2)) } else { rng.pick(&["Heading0", "x\n.so heading", ".Head", "two words", "it's"]).to_string() }) } else { None },
+            kind, required, hide, heading: if rng.chance(1, 3) { Some(rng.pick(&["Heading0", "x\n.so heading", ".Head", "two words", "it's", "Heading0"]).to_string()) } else { None },
             help: if hide { Some(format!("HIDH{i} text")) } else { opt_adv(rng, 4, 5) },
             long_help: if hide { None } else { opt_adv(rng, 1, 5) },
             hide_s: rng.chance(1, 8), hide_l: rng.chance(1, 8),
